@@ -37,6 +37,17 @@ static inline _Bool xv_bzeroed_after (const void *p, size_t n, unsigned after)
   return hit;
 }
 
+/* ghost log of the numbers the strtoul model parsed: where, how many digits,
+   the digit values, the value, whether it overflowed.  Together with the
+   print log below it carries assumption A-dec (the canonical decimal
+   representation of a number is unique): when snprintf prints a value that
+   strtoul parsed from a canonical digit string (no leading zero, no
+   overflow) of at most 10 digits, the printed digits are those digits.  */
+#define XV_PARSE_LOG 2
+struct xv_parse_rec { const char *at; unsigned nd; unsigned char dig[10]; unsigned long v; _Bool overflow; };
+extern struct xv_parse_rec xv_parse_log[XV_PARSE_LOG];
+extern unsigned xv_parse_n;
+
 /* ghost log of decimal fields printed by the snprintf model (models/snprintf.c) */
 #define XV_DEC_LOG 4
 struct xv_dec_rec { const char *at; unsigned long long v; unsigned nd; unsigned char dig[10]; };
@@ -50,7 +61,7 @@ static inline _Bool xv_dec_field_is (const unsigned char *p, unsigned long long 
     if (r < xv_dec_n && xv_dec_log[r].at == (const char *) p && xv_dec_log[r].v == v && xv_dec_log[r].nd == nd)
       {
         _Bool same = 1;
-        for (unsigned i = 0; i < 10; i++)
+        for (unsigned i = 0; i < 10; i++)   /* XV_UNWIND 10 */
           if (i < nd && p[i] != (unsigned char) ('0' + xv_dec_log[r].dig[i]))
             same = 0;
         if (same)
